@@ -54,6 +54,26 @@ func (s *Spec) wireUnits(in *Injector) []string {
 			for i, f := range p.AsmFields {
 				fs[i] = fmt.Sprintf("%q", f)
 			}
+			// wire does not care about the order of an explicit field list:
+			// a third in declaration order, a third reversed, a third rotated
+			if len(fs) > 1 && fs[0] != `"*"` {
+				// position among the spec's multi-field assemblies: the first
+				// one is reversed, the second rotated, the third as declared, ...
+				k := 0
+				for _, q := range s.Provs {
+					if q.ID < p.ID && q.Kind == PAssemble && len(q.AsmFields) > 1 {
+						k++
+					}
+				}
+				switch (k + 1) % 3 {
+				case 1:
+					for a, b := 0, len(fs)-1; a < b; a, b = a+1, b-1 {
+						fs[a], fs[b] = fs[b], fs[a]
+					}
+				case 2:
+					fs = append(fs[1:], fs[0])
+				}
+			}
 			// wire.Struct(new(S), ...) provides both S and *S
 			sb := s.structBase(p.Results[0])
 			out = append(out, fmt.Sprintf("wire.Struct(new(%s), %s)", s.Expr(sb, ""), strings.Join(fs, ", ")))
@@ -76,6 +96,11 @@ func (s *Spec) wireUnits(in *Injector) []string {
 		var names []string
 		for _, fi := range fs {
 			names = append(names, fmt.Sprintf("%q", s.Types[sb].Fields[fi].Name))
+		}
+		if v%2 == 1 {
+			for a, b := 0, len(names)-1; a < b; a, b = a+1, b-1 {
+				names[a], names[b] = names[b], names[a]
+			}
 		}
 		out = append(out, fmt.Sprintf("wire.FieldsOf(new(%s), %s)", s.Expr(v, ""), strings.Join(names, ", ")))
 	}
